@@ -1754,7 +1754,7 @@ impl<'a> Walker<'a> {
                 eval_args(self, out);
                 let rid = leftmost_ident(&m.receiver).unwrap_or_default();
                 let role = self.cfg.store_bin_roles.get(&self.f.key).and_then(|r| r.get(&rid)).cloned().unwrap_or_else(|| "cur".into());
-                let ev = if role == "nt" { "ev_store_nt_bin" } else if marker { "ev_store_marker" } else { "ev_write_lk" };
+                let ev = if role == "nt" { "ev_store_nt_bin" } else if marker { "ev_store_marker" } else { "ev_store_bin" };
                 out.push(self.ev(ev, vec![], m, line));
                 return None;
             }
